@@ -29,3 +29,14 @@ Print Assumptions C02_precompile_sets.
 Theorem C02_source_reviewed : group_ok 2 = true.
 Proof. exact gen_group_2. Qed.
 Print Assumptions C02_source_reviewed.
+
+From Verif Require Import Base.Bytes Model.Exec Proofs.Exec_generic Proofs.Exec_refine.
+(** the same theorem read for gas: the result [r] of every entry point — which carries the leftover gas handed back — and the
+    step events (which carry gas and cost of every step) are identical with and without the Artela additions when nothing is bound *)
+Theorem C02_gas_identical_with_additions : forall W M HT can_transfer transfer balance_of exists_acct create_account code_of collides get_nonce set_nonce acl_add set_code touch is_homestead is_eip158 is_berlin is_london max_code_size is_precompile precompile local_step init_machine keccak debug jpA alA aspA jpR alR bR aspR t0,
+  (forall d fc m w, Forall (fun e => is_jp_event e = false) (step_events (local_step d fc m w))) ->
+  (forall d fc m w, match local_step d fc m w with SJournal _ _ _ _ _ _ => False | _ => True end) ->
+  (forall a c i g, precompile a (Some c) i g = precompile a None i g) ->
+  forall fuel, PR W M HT can_transfer transfer balance_of exists_acct create_account code_of collides get_nonce set_nonce acl_add set_code touch is_homestead is_eip158 is_berlin is_london max_code_size is_precompile precompile local_step init_machine keccak debug jpA alA aspA jpR alR bR aspR t0 fuel.
+Proof. exact additions_invisible. Qed.
+Print Assumptions C02_gas_identical_with_additions.
